@@ -774,7 +774,7 @@ func (x *Exec) verifyFunc(fn *ssa.Function, ct *Contract) {
 					_ = id
 				}
 				if obj := d.Object(); obj != nil {
-					if _, isVar := obj.(*types.Var); isVar {
+					if tv, isVar := obj.(*types.Var); isVar && !tv.IsField() {
 						if seen[obj.Name()] == nil {
 							seen[obj.Name()] = map[ssa.Value]bool{}
 						}
@@ -1223,6 +1223,29 @@ func (x *Exec) domVars(p *Path, env *SpecEnv, head *ssa.BasicBlock) *SpecEnv {
 
 func (x *Exec) iterVars(p *Path, env *SpecEnv, head *ssa.BasicBlock) *SpecEnv {
 	env = x.domVars(p, env, head)
+	// unique locals defined before the loop that no clause mentions are candidates for a renamed local
+	f := p.frames[0]
+	for name, v := range x.cur.names {
+		if x.cur.refNames[name] {
+			continue
+		}
+		in, ok := v.(ssa.Instruction)
+		if !ok || in.Block() == nil || in.Block() == head || !in.Block().Dominates(head) {
+			continue
+		}
+		if sv, defined := f.env[v]; defined {
+			if _, isAlloc := v.(*ssa.Alloc); isAlloc && sv.K == KLoc && sv.Loc.Kind == "opaque" {
+				continue
+			}
+			n := *env
+			n.spare = map[string]SV{}
+			for k, vv := range env.spare {
+				n.spare[k] = vv
+			}
+			n.spare[name] = sv
+			env = &n
+		}
+	}
 	if it, ok := x.iterOf(p, head); ok {
 		env = env.with("idx", term(fmt.Sprintf("(select (CInt %s) %s)", env.H, it.Loc.Cell), SInt))
 		env = env.with("ord", term(it.Arr, SOrd))
